@@ -41,6 +41,70 @@ def variant_of(t):
     return None, t
 
 
+
+def pixel_ratio(ctx, rule='T4'):
+    """the pixel-ratio refusal, decided by abstract evaluation of the guards over value classes of the two header bytes"""
+    fx = ctx.fx
+
+    b = ctx.anchor('asefile::parse::read_aseprite')
+    if b is not None:
+        errs = [(bb, t) for (l, pj, t, bb, sp) in q.defs_in(b, b.cfg.reach) if l == 0 and not pj and t[0] == 'agg'
+                and t[2] == 'Err' and dict(t[3])['0'][0] == 'agg' and dict(t[3])['0'][2] == UNSUPPORTED]
+        ctx.floor('UnsupportedFeature returns in read_aseprite', len(errs), 1)
+        for ebb, et in errs:
+            gs = q.guards(b, ebb)
+            reads = []
+            for cond, vals, a in gs:
+                if cond[0] == 'discr':
+                    continue
+                for r_ in [x for x in walk(cond) if common.is_read(x, ('byte',))]:
+                    if r_ not in reads:
+                        reads.append(r_)
+            first_sw = None
+            if len(reads) == 2:
+                # start interpreting right after the later of the two reads has been unwrapped by `?`
+                sites = [x[3][1] for x in reads]
+                later = sites[0] if b.cfg.dominates(sites[1], sites[0]) else sites[1]
+                for sw in q.switches_on(b, lambda d: d[0] == 'discr' and d[1][0] == 'try' and d[1][1] in reads
+                                        and d[1][1][3][1] == later):
+                    cont = [s_ for v_, s_ in b.blocks[sw]['term']['targets'] if v_ == 0]
+                    if cont:
+                        first_sw = cont[0]
+            if len(reads) != 2 or first_sw is None:
+                ctx.inst(rule, 'pixel-ratio', False, 'the UnsupportedFeature return is guarded by comparisons on %d header '
+                         'byte reads (expected the two pixel-ratio bytes)' % len(reads), b.blocks[ebb]['term'].get('span'),
+                         key='asefile::parse::read_aseprite|%s|pixel-ratio-guards' % rule)
+                continue
+
+            def stop(bb, ebb=ebb):
+                if bb == ebb:
+                    return 'refuse'
+                fwd = b.cfg.reachable_from(bb)
+                if ebb not in fwd:
+                    return 'accept'
+                # every path from here runs into the Err construction?
+                if not (b.cfg.reachable_from(bb, avoid={ebb}) & set(b.cfg.returns)):
+                    return 'refuse'
+                return None
+            allok = True
+            rows = []
+            for w in (0, 1, 2, 255):
+                for h in (0, 1, 2, 255):
+                    want = 'refuse' if (w != 0 and h != 0 and not (w == 1 and h == 1)) else 'accept'
+                    try:
+                        got, path = q.interp(b, first_sw, {reads[0]: w, reads[1]: h}, stop)
+                    except q.CannotEval as e:
+                        got = 'cannot-evaluate(%s)' % e
+                    rows.append((w, h, got))
+                    ok = got == want
+                    allok = allok and ok
+                    ctx.inst(rule, 'pixel-ratio(%d:%d)' % (w, h), ok, 'pixel ratio %d:%d is %s; spec + README require %s'
+                             % (w, h, got, want), b.blocks[ebb]['term'].get('span'),
+                             key='asefile::parse::read_aseprite|%s|pixel-ratio|%d:%d' % (rule, w, h))
+            ctx.note('pixel ratio truth table: %s' % rows)
+
+
+
 def run(ctx):
     fx = ctx.fx
     g = CG.get(fx)
@@ -124,63 +188,7 @@ def run(ctx):
                 ctx.inst('T3', '%s in %s#arg' % (fn, cn), isread, 'matched value is %s (must be a file field read)' % show(at),
                          c.span, key=ctx.key(cn, 'T3', 'arg', fn))
 
-    # ---------------- T4a pixel ratio truth table
-    b = ctx.anchor('asefile::parse::read_aseprite')
-    if b is not None:
-        errs = [(bb, t) for (l, pj, t, bb, sp) in q.defs_in(b, b.cfg.reach) if l == 0 and not pj and t[0] == 'agg'
-                and t[2] == 'Err' and dict(t[3])['0'][0] == 'agg' and dict(t[3])['0'][2] == UNSUPPORTED]
-        ctx.floor('UnsupportedFeature returns in read_aseprite', len(errs), 1)
-        for ebb, et in errs:
-            gs = q.guards(b, ebb)
-            reads = []
-            for cond, vals, a in gs:
-                if cond[0] == 'discr':
-                    continue
-                for r_ in [x for x in walk(cond) if common.is_read(x, ('byte',))]:
-                    if r_ not in reads:
-                        reads.append(r_)
-            first_sw = None
-            if len(reads) == 2:
-                # start interpreting right after the later of the two reads has been unwrapped by `?`
-                sites = [x[3][1] for x in reads]
-                later = sites[0] if b.cfg.dominates(sites[1], sites[0]) else sites[1]
-                for sw in q.switches_on(b, lambda d: d[0] == 'discr' and d[1][0] == 'try' and d[1][1] in reads
-                                        and d[1][1][3][1] == later):
-                    cont = [s_ for v_, s_ in b.blocks[sw]['term']['targets'] if v_ == 0]
-                    if cont:
-                        first_sw = cont[0]
-            if len(reads) != 2 or first_sw is None:
-                ctx.inst('T4', 'pixel-ratio', False, 'the UnsupportedFeature return is guarded by comparisons on %d header '
-                         'byte reads (expected the two pixel-ratio bytes)' % len(reads), b.blocks[ebb]['term'].get('span'),
-                         key='asefile::parse::read_aseprite|T4|pixel-ratio-guards')
-                continue
-
-            def stop(bb, ebb=ebb):
-                if bb == ebb:
-                    return 'refuse'
-                fwd = b.cfg.reachable_from(bb)
-                if ebb not in fwd:
-                    return 'accept'
-                # every path from here runs into the Err construction?
-                if not (b.cfg.reachable_from(bb, avoid={ebb}) & set(b.cfg.returns)):
-                    return 'refuse'
-                return None
-            allok = True
-            rows = []
-            for w in (0, 1, 2, 255):
-                for h in (0, 1, 2, 255):
-                    want = 'refuse' if (w != 0 and h != 0 and not (w == 1 and h == 1)) else 'accept'
-                    try:
-                        got, path = q.interp(b, first_sw, {reads[0]: w, reads[1]: h}, stop)
-                    except q.CannotEval as e:
-                        got = 'cannot-evaluate(%s)' % e
-                    rows.append((w, h, got))
-                    ok = got == want
-                    allok = allok and ok
-                    ctx.inst('T4', 'pixel-ratio(%d:%d)' % (w, h), ok, 'pixel ratio %d:%d is %s; spec + README require %s'
-                             % (w, h, got, want), b.blocks[ebb]['term'].get('span'),
-                             key='asefile::parse::read_aseprite|T4|pixel-ratio|%d:%d' % (w, h))
-            ctx.note('pixel ratio truth table: %s' % rows)
+    pixel_ratio(ctx)
 
     # ---------------- T4b colour profile: flags&1 -> Err ; type == ICC -> Err
     b = ctx.anchor('asefile::color_profile::parse_chunk')
